@@ -23,13 +23,15 @@ type Scope struct {
 	Caseless  bool
 	NotLit    bool
 	CapHeavy  bool // bias towards captures under alternation/optional groups
+	GlobalCaps bool // captures inside `set ... to pattern` bodies (bound at run time like any other)
+	MultiByteItems bool // string items of more than one byte in `in` lists (order becomes observable)
 	NoNullableLoopBody bool
 }
 
 var DefaultScope = Scope{
 	Alpha: "ab", MaxDepth: 3, MaxItems: 3,
 	Captures: true, BackRefs: true, Subs: true, Globals: true, Preds: true,
-	Anchors: true, WordAnch: true, Classes: true, Lists: true, Lazy: true, Caseless: true, NotLit: true,
+	Anchors: true, WordAnch: true, Classes: true, Lists: true, Lazy: true, Caseless: true, NotLit: true, MultiByteItems: true,
 }
 
 // PG is the state of one program generation.
@@ -88,7 +90,16 @@ func (g *PG) lit() Lit {
 var classKinds = []string{"any", "lower", "letter", "digit", "upper", "whitespace"}
 var anchorKinds = []string{"linestart", "lineend", "filestart", "fileend", "wordstart", "wordend"}
 
-func (g *PG) listItem() ListItem {
+func (g *PG) listItem(positive bool) ListItem {
+	if positive && g.Sc.MultiByteItems && g.R.Chance(1, 3) {
+		// two- and three-byte strings over a tiny alphabet: one item is often a prefix of another
+		n := 2 + g.R.Intn(2)
+		b := make([]byte, n)
+		for i := range b {
+			b[i] = g.Sc.Alpha[g.R.Intn(len(g.Sc.Alpha))]
+		}
+		return ListItem{Kind: "lit", S: string(b)}
+	}
 	switch g.R.Intn(4) {
 	case 0:
 		a := g.Sc.Alpha[g.R.Intn(len(g.Sc.Alpha))]
@@ -142,10 +153,10 @@ func (g *PG) atom() Node {
 			}
 		case 6, 7:
 			if g.Sc.Lists {
-				n := 1 + r.Intn(3)
+				n := 1 + r.Intn(4)
 				in := In{Not: r.Chance(1, 3)}
 				for i := 0; i < n; i++ {
-					in.Items = append(in.Items, g.listItem())
+					in.Items = append(in.Items, g.listItem(!in.Not))
 				}
 				return in
 			}
@@ -236,7 +247,7 @@ func (g *PG) Node(depth int) Node {
 			g.budget--
 			return Seq{Items: g.Items(depth-1, 1+r.Intn(g.Sc.MaxItems))}
 		case 8:
-			if g.Sc.Captures && g.noDecl == 0 && !g.inGlobal {
+			if g.Sc.Captures && g.noDecl == 0 && (!g.inGlobal || g.Sc.GlobalCaps) {
 				g.budget--
 				g.nCap++
 				name := fmt.Sprintf("v%d", g.nCap)
